@@ -27,6 +27,8 @@ pub enum Sched {
     Cuts(Vec<usize>),
     /// At most n bytes per read, and every k-th call fails once with ErrorKind::Interrupted.
     Interrupted(usize, u64),
+    /// At most n bytes per read; from offset k on every read fails (and keeps failing).
+    FaultAt(usize, usize),
 }
 
 impl Sched {
@@ -38,6 +40,7 @@ impl Sched {
             Sched::Random(s, m) => format!("random:{s}:{m}"),
             Sched::Cuts(c) => format!("cuts:{}", c.iter().map(|x| x.to_string()).collect::<Vec<_>>().join(",")),
             Sched::Interrupted(n, k) => format!("interrupted:{n}:{k}"),
+            Sched::FaultAt(n, k) => format!("faultat:{n}:{k}"),
         }
     }
     pub fn parse(s: &str) -> Option<Sched> {
@@ -47,6 +50,7 @@ impl Sched {
             "one" => Some(Sched::One),
             "fixed" => Some(Sched::Fixed(parts.get(1)?.parse().ok()?)),
             "random" => Some(Sched::Random(parts.get(1)?.parse().ok()?, parts.get(2)?.parse().ok()?)),
+            "faultat" => Some(Sched::FaultAt(parts.get(1)?.parse().ok()?, parts.get(2)?.parse().ok()?)),
             "interrupted" => Some(Sched::Interrupted(parts.get(1)?.parse().ok()?, parts.get(2)?.parse().ok()?)),
             "cuts" => {
                 let v = parts.get(1).copied().unwrap_or("");
@@ -104,7 +108,11 @@ impl<'a> SchedReader<'a> {
             Sched::Interrupted(_, k) => Some((*k).max(2)),
             _ => None,
         };
-        SchedReader { data, pos: 0, sched, rng: Rng::new(seed), fault_at: None, fault_kind: io::ErrorKind::Other, interrupt_every, log: Rc::new(RefCell::new(ReadLog::default())) }
+        let fault_at = match &sched {
+            Sched::FaultAt(_, k) => Some(*k),
+            _ => None,
+        };
+        SchedReader { data, pos: 0, sched, rng: Rng::new(seed), fault_at, fault_kind: io::ErrorKind::Other, interrupt_every, log: Rc::new(RefCell::new(ReadLog::default())) }
     }
     pub fn with_interrupts(mut self, every: u64) -> Self {
         self.interrupt_every = Some(every.max(2));
@@ -156,7 +164,7 @@ impl<'a> Read for SchedReader<'a> {
         let want = match &self.sched {
             Sched::All => avail,
             Sched::One => 1,
-            Sched::Fixed(n) | Sched::Interrupted(n, _) => (*n).max(1),
+            Sched::Fixed(n) | Sched::Interrupted(n, _) | Sched::FaultAt(n, _) => (*n).max(1),
             Sched::Random(_, max) => 1 + self.rng.below((*max).max(1)),
             Sched::Cuts(c) => {
                 // up to the next cut strictly after pos
